@@ -95,6 +95,17 @@ def search_collections(job):
         names_now = [x.name for x in doc.sheets]
         if len(names_now) != n_before + 1 or names_now.count(new.name) != 1 or len({x.lower() for x in names_now}) != len(names_now):
             return {"violated": True, "detail": f"sheets {names}: add_sheet() produced {new.name!r}; sheets are now {names_now}"}
+    # names whose case-folded and lower-cased forms differ (sharp s, final sigma, ligatures): a name is at least a duplicate of itself
+    for special in ("Stra\u00dfe", "\u039f\u03b4\u03cc\u03c2", "\ufb01nance", "Ma\u00dfe 2024", "\u0130stanbul"):
+        doc = Document(sheet_name=special, table_name=special)
+        if special not in doc.sheets or special not in doc.sheets[0].tables:
+            return {"violated": True, "detail": f"a sheet and a table are named {special!r}: ({special!r} in collection) is False"}
+        for what, adder in (("add_sheet", doc.add_sheet), ("add_table", doc.sheets[0].add_table)):
+            try:
+                adder(special)
+                return {"violated": True, "detail": f"{what}({special!r}) was accepted although a sibling has exactly that name"}
+            except IndexError:
+                pass
     # generated names against siblings that differ only in case, and membership after a rename
     for first, more in (("table 1", ["TABLE 2"]), ("Table 1", ["table 2", "Table 4"]), ("TABLE 1", [])):
         doc = Document(table_name=first)
